@@ -521,6 +521,30 @@ class Exec:
                 self.pv.prove(f"{self.fname}#det:carried-state-determined@L{getattr(node, 'lineno', '?')}", list(fr.pc) + [g2], goal)
         fr.heap[ref.oid] = fr.heap[ref.oid].add(ent)
 
+    def dict_keys_seq(self, ref, fr):
+        """list(d) / iteration order of a dict built by ONE insertion family `for i in range(lo, hi): d[key(i)] = ...`
+        whose key carries the binder itself as a component (so keys are pairwise distinct and the insertion order is
+        the binder order): the keys as a sequence.  Anything else is outside the subset."""
+        from .ctx import subst
+
+        st = fr.heap[ref.oid]
+        if st.base is not None or len(st.entries) != 1:
+            raise Unsupported("keys of a dict that is not built by a single insertion family")
+        ent = st.entries[0]
+        if not ent.binders:
+            return Seq.of([ent.key if len(ent.key) != 1 else ent.key[0]])
+        if len(ent.binders) != 1 or getattr(ent, "aux", ()):
+            raise Unsupported("keys of a dict built under nested loops / carried state")
+        var, lo, hi = ent.binders[0]
+        in_range = z3.And(zint(lo) <= var, var < zint(hi))
+        if self.pv.feasible(list(getattr(ent, "pc_outer", [])) + [in_range, z3.Not(zbool(ent.guard))]) is not False:
+            raise Unsupported("keys of a dict built under a guard (some iterations may not insert)")
+        if not any(is_z3(part) and part.eq(var) for part in ent.key):
+            raise Unsupported("keys of a dict whose key does not carry the loop index (distinctness unknown)")
+        lo_, hi_ = zint(lo), zint(hi)
+        key = ent.key if len(ent.key) != 1 else ent.key[0]
+        return Seq(simp_int(z3.If(hi_ > lo_, hi_ - lo_, 0)), lambda k, key=key, var=var, lo_=lo_: subst(key, [(var, simp_int(lo_ + zint(k)) if not isinstance(simp_int(lo_ + zint(k)), int) else z3.IntVal(simp_int(lo_ + zint(k))))]), "list")
+
     def _freeze(self, v, fr):
         """Snapshot lists referenced by a value stored into a dict (A-alias: such a list is not mutated after
         it was stored; the concrete cross-check runs the real code, where aliasing is real)."""
@@ -1367,6 +1391,8 @@ class Exec:
             (a,) = args
             if isinstance(a, SetVal) and a.elems is not None:
                 s = Seq.of(a.elems)
+            elif isinstance(a, Ref) and a.kind == "dict":
+                s = self.dict_keys_seq(a, fr)
             else:
                 s = self.seq_of(a, fr)
             if name.endswith("list"):
